@@ -146,10 +146,10 @@ def execute(scn):
             # -- failure surface
             if failed:
                 probe("op_with_transport_failure")
-                if not exc or exc.get("cls") != "RefResolutionError":
+                if not exc or not exc.get("rre"):
                     violations.append({"oracle": "failure-not-RefResolutionError", "where": i, "config": ci,
                                        "op": op["op"], "detail": {"transport": failed[:3], "outcome": out}})
-            elif exc and exc.get("cls") == "RefResolutionError" and "dsim:" in exc.get("msg", ""):
+            elif exc and exc.get("rre") and "dsim:" in exc.get("msg", ""):
                 violations.append({"oracle": "stale-failure-reported", "where": i, "config": ci, "op": op["op"],
                                    "detail": {"outcome": out, "window": window[:3]}})
             # -- frugality
